@@ -151,6 +151,24 @@ var roleTable = []roleSpec{
 	{"pkg/protocol", "", "decodeArgAppend", func(w *core.World, fi *core.FuncInfo) bool {
 		return calledFrom(w, w.Func("pkg/protocol", "argsScanner", "next"), fi) && fi.Obj.Type().(*types.Signature).Params().Len() == 2
 	}},
+	// ---- buffered connection
+	{"pkg/network/standard", "Conn", "releaseCaches", func(w *core.World, fi *core.FuncInfo) bool {
+		// no parameters/results; frees every element of the [][]byte field and truncates it
+		sig := fi.Obj.Type().(*types.Signature)
+		if sig.Params().Len() != 0 || sig.Results().Len() != 0 {
+			return false
+		}
+		trunc := false
+		ast.Inspect(fi.Decl.Body, func(n ast.Node) bool {
+			if as, ok := n.(*ast.AssignStmt); ok && len(as.Lhs) == 1 {
+				if v := usedVar(fi.Pkg.TypesInfo, as.Lhs[0]); v != nil && v.IsField() && v.Type().String() == "[][]byte" {
+					trunc = true
+				}
+			}
+			return true
+		})
+		return trunc && callsWhere(fi, func(f *types.Func, _ *ast.CallExpr) bool { return f.Name() == "free" })
+	}},
 	// ---- router
 	{"pkg/route", "RouterGroup", "combineHandlers", func(w *core.World, fi *core.FuncInfo) bool {
 		sig := fi.Obj.Type().(*types.Signature)
@@ -261,6 +279,10 @@ var fieldRoleTable = []fieldRole{
 		// the netpoll event loop handle: the only field of an EventLoop type
 		return strings.HasSuffix(f.Type().String(), "netpoll.EventLoop")
 	}},
+	{"pkg/network/standard", "Conn", "caches", func(w *core.World, f *types.Var, uses []fieldUse) bool {
+		// the list of pooled buffers a cross-node Peek handed out: the only [][]byte field
+		return f.Type().String() == "[][]byte"
+	}},
 	{"pkg/protocol/http1", "HostClient", "connsCount", func(w *core.World, f *types.Var, uses []fieldUse) bool {
 		inc, dec := false, false
 		for _, u := range uses {
@@ -346,6 +368,57 @@ func installFieldRoles(w *core.World, r *core.Report) {
 	}
 }
 
+// type roles: a renamed private named type is found by how the mechanism uses it.
+type typeRole struct {
+	rel, name string
+	is        func(w *core.World, n *types.Named) bool
+}
+
+var typeRoleTable = []typeRole{
+	{"pkg/protocol/http1", "clientConn", func(w *core.World, n *types.Named) bool {
+		// the pooled connection record: the struct whose pointer HostClient.releaseConn takes
+		for _, m := range []string{"releaseConn", "closeConn"} {
+			if fi := w.Func("pkg/protocol/http1", "HostClient", m); fi != nil {
+				sig := fi.Obj.Type().(*types.Signature)
+				if sig.Params().Len() == 1 {
+					if pt, ok := sig.Params().At(0).Type().(*types.Pointer); ok && pt.Elem() == types.Type(n) {
+						return true
+					}
+				}
+			}
+		}
+		return false
+	}},
+}
+
+func installTypeRoles(w *core.World, r *core.Report) {
+	if w.TypeAlias == nil {
+		w.TypeAlias = map[string]*types.Named{}
+	}
+	for _, tr := range typeRoleTable {
+		key := tr.rel + "|" + tr.name
+		if w.TypeAlias[key] != nil || w.Named(tr.rel, tr.name) != nil {
+			continue
+		}
+		p := w.Pkg(tr.rel)
+		if p == nil {
+			continue
+		}
+		var cands []*types.Named
+		for _, nm := range p.Types.Scope().Names() {
+			if tn, ok := p.Types.Scope().Lookup(nm).(*types.TypeName); ok {
+				if n, ok := tn.Type().(*types.Named); ok && tr.is(w, n) {
+					cands = append(cands, n)
+				}
+			}
+		}
+		if len(cands) == 1 {
+			w.TypeAlias[key] = cands[0]
+			r.Unit("role: type %s.%s is no longer declared; %s plays that role (found by how it is used)", tr.rel, tr.name, cands[0].Obj().Name())
+		}
+	}
+}
+
 // installRoles resolves renamed private anchors for world w. It is idempotent per world.
 func installRoles(w *core.World, r *core.Report) {
 	if w == nil {
@@ -356,6 +429,7 @@ func installRoles(w *core.World, r *core.Report) {
 	}
 	esp.Aliases = map[string]*types.Func{}
 	installFieldRoles(w, r)
+	installTypeRoles(w, r)
 	for _, rs := range roleTable {
 		if w.Func(rs.rel, rs.recv, rs.name) != nil && w.Alias[rs.rel+"|"+rs.recv+"|"+rs.name] == nil {
 			continue
